@@ -191,7 +191,7 @@ class Ref:
 
     def start_attr(self):
         self.finish_attr()
-        self.attr = [[], []]
+        self.attr = [[], self.attr[1]]
         self.attr_open = True
 
     def finish_attr(self):
@@ -200,6 +200,9 @@ class Ref:
         self.attr = [[], []]
         self.attr_open = False
         if not name:
+            # start-state convention only (the algorithm never finishes an attribute with an empty name):
+            # a value collected before any name exists stays pending, as in the implementation
+            self.attr = [[], val]
             return
         for n, _ in self.tag["attrs"]:
             if self.B(seq_eq(n, name), "duplicate attribute?"):
@@ -1292,16 +1295,16 @@ class Ref:
             self.state = self.return_state
 
     def acc(self, base, d):
-        """character reference code = code * base + digit, as a mathematical integer that saturates above
-        0x10FFFF (any value above 0x10FFFF is treated alike by the end state)"""
+        """character reference code = code * base + digit, exact: kept in 64 bits and saturated at 0x110000
+        (every value above 0x10FFFF is treated alike by the end state), so it never wraps"""
         code = self.code
         if isinstance(code, int) and isinstance(d, int):
             v = code * base + d
             return v if v <= 0x10FFFF else 0x110000
-        code = z3.IntVal(code) if isinstance(code, int) else code
-        d = z3.BV2Int(d) if is_sym(d) and z3.is_bv(d) else (z3.IntVal(d) if isinstance(d, int) else d)
+        code = z3.BitVecVal(code, 64) if isinstance(code, int) else code
+        d = z3.ZeroExt(64 - d.size(), d) if is_sym(d) else z3.BitVecVal(d, 64)
         v = code * base + d
-        return z3.If(v > 0x10FFFF, z3.IntVal(0x110000), v)
+        return z3.If(z3.UGT(v, 0x10FFFF), z3.BitVecVal(0x110000, 64), v)
 
     def s_HexadecimalCharacterReference(self, _):
         c = self.next()
@@ -1336,7 +1339,7 @@ class Ref:
             cp = numeric_value(code)
         else:
             # fork over the special ranges so that the result is a bit-vector term
-            kinds = [("zero", code == 0), ("big", code > 0x10FFFF), ("sur", z3.And(code >= 0xD800, code <= 0xDFFF))]
+            kinds = [("zero", code == 0), ("big", z3.UGT(code, 0x10FFFF)), ("sur", z3.And(z3.UGE(code, 0xD800), z3.ULE(code, 0xDFFF)))]
             kinds += [("c1_%x" % k, code == k) for k in C1_REPLACEMENTS]
             opts, neg = [], []
             for lab, cnd in kinds:
@@ -1349,7 +1352,7 @@ class Ref:
             elif lab.startswith("c1_"):
                 cp = C1_REPLACEMENTS[int(lab[3:], 16)]
             else:
-                cp = z3.Int2BV(code, 32)
+                cp = z3.Extract(31, 0, code)
         self.temp = [cp]
         self.flush(self.temp)
         self.temp = []
